@@ -27,6 +27,8 @@ def c19(tier):
     # write sequences for the real watchers
     rnd = random.Random(seed())
     nseq = 48 if tier == "quick" else 4000
+    import p_reconf
+    p_reconf.nsstore(ck, tier)
     seqs = []
     variants = ["opl", "opl", "opl", "json", "yaml", "toml"]
     for i in range(nseq):
